@@ -4,6 +4,7 @@
 import Tsg.Syntax.Ast
 import Tsg.Syntax.Parser
 import Tsg.Syntax.Checker
+import Tsg.Syntax.Load
 import Tsg.Driver.AstIO
 
 namespace Driver
@@ -159,18 +160,15 @@ def handleLoad : List Sexp → Sexp
     match poracleOfSexp orc with
     | none => .list [.atom "bad-request"]
     | some t =>
-      match Parser.parse t.toOracle text with
-      | .error (.err e) => .list [.atom "parse-error", perrSexpP e]
-      | .error (.need (.query q)) => .list [.atom "need", .atom "q", .str q]
-      | .error (.need (.regex p)) => .list [.atom "need", .atom "r", .str p]
-      | .error .outOfFuel => .list [.atom "out-of-fuel"]
-      | .error (.panic s) => .list [.atom "panic", .str s]
-      | .ok f =>
-        match Checker.check (fun p => t.ns.lookup p) f with
-        | .ok f' => .list [.atom "loaded", fileSexp f']
-        | .error (.err e) => .list [.atom "check-error", cerrSexp e]
-        | .error (.needNullable p) => .list [.atom "need", .atom "n", .str p]
-        | .error (.panic s) => .list [.atom "panic", .str s]
+      match Loader.load t.toOracle (fun p => t.ns.lookup p) text with
+      | .loaded f => .list [.atom "loaded", fileSexp f]
+      | .parseError e => .list [.atom "parse-error", perrSexpP e]
+      | .checkError e => .list [.atom "check-error", cerrSexp e]
+      | .needQuery q => .list [.atom "need", .atom "q", .str q]
+      | .needRegex p => .list [.atom "need", .atom "r", .str p]
+      | .needNullable p => .list [.atom "need", .atom "n", .str p]
+      | .outOfFuel => .list [.atom "out-of-fuel"]
+      | .panic s => .list [.atom "panic", .str s]
   | _ => .list [.atom "bad-request"]
 
 end Driver
